@@ -764,6 +764,29 @@ def t4(ctx, R, rule="T4"):
     else:
         ctx.holds(rule, "%d names producible by the scheme: all concrete commands or rejected (%s)" % (
             len(cands), ", ".join(k for k, v in guards.items() if v)))
+    # the namespace is indexed only after the name was found present (else KeyError escapes for every unknown command)
+    gvars = {t.id for a in walk_no_nested(lk.node) if isinstance(a, ast.Assign) and isinstance(a.value, ast.Call) and call_name(a.value) == "globals"
+             for t in a.targets if isinstance(t, ast.Name)}
+    subs = [s_ for s_ in walk_no_nested(lk.node) if isinstance(s_, ast.Subscript) and isinstance(s_.ctx, ast.Load) and (
+        (isinstance(s_.value, ast.Name) and s_.value.id in gvars) or (isinstance(s_.value, ast.Call) and call_name(s_.value) == "globals"))]
+
+    def present(e, pol):
+        e, pol = _atom(e, pol)
+        cp = cmp_parts(e)
+        return bool(cp and cp[1] in ("In", "NotIn") and ((cp[1] == "In") == pol))
+    unguarded = []
+    for s_ in subs:
+        if any(present(e, pol) for e, pol in expr_guards(s_)):
+            continue
+        nodes = cfg.node_containing(s_)
+        if nodes and all(cfg.guarded(x, lambda fc: present(fc.expr, fc.pol)) for x in nodes):
+            continue
+        unguarded.append(s_)
+    if unguarded:
+        ctx.violation(rule, lk, "registry-indexed-before-membership", "the command namespace is indexed (%s) before the name was found present"
+                      % norm(unguarded[0]), node=unguarded[0], witness="`foo;` (any unknown command) makes parse() raise KeyError")
+    else:
+        ctx.holds(rule, "namespace indexed only after the membership test (%d sites)" % len(subs))
     # positive control: a synthetic abstract class must be classified as non-concrete
     if all(table.get(x, {}).get("abstract") is True for x in ("ControlCommand", "ActionCommand", "TestCommand") if x in table) is False:
         raise AnalysisError(rule, "positive control failed: intermediate classes not recognised as abstract")
